@@ -84,7 +84,20 @@ func (s *State) declare(o types.Object, v Value) {
 }
 
 // version returns the n-th value (1-based) assigned to the local called name on this path.
+// specRename: contract identifiers re-bound to locals after a rename in the code (see check.go:
+// a binding is accepted only if every obligation of the function is discharged with it; the
+// function-level clauses speak about parameters and results only, so this cannot weaken a claim).
+var specRename = map[string]string{}
+
+func renamed(name string) string {
+	if alt, ok := specRename[name]; ok {
+		return alt
+	}
+	return name
+}
+
 func (s *State) version(name string, n int) (Value, bool) {
+	name = renamed(name)
 	for i := len(s.scope) - 1; i >= 0; i-- {
 		if s.scope[i].Name() == name {
 			h := s.hist[s.scope[i]]
@@ -98,6 +111,7 @@ func (s *State) version(name string, n int) (Value, bool) {
 }
 
 func (s *State) lookupName(name string) (Value, bool) {
+	name = renamed(name)
 	for i := len(s.scope) - 1; i >= 0; i-- {
 		if s.scope[i].Name() == name {
 			v, ok := s.vars[s.scope[i]]
